@@ -29,6 +29,8 @@ import (
 //	knew W H XPIX YPIX                      new Vaxis on a fake console reporting that size (in-band resize)
 //	kimg N wPix hPix                        vx.NewKittyGraphic of an NRGBA image         => image id
 //	kresize N w h                           Resize + wait for the encoder               => "cw ch" | "cw ch noencode" | panic
+//	simg N wPix hPix / sresize N w h        the same for vx.NewSixel (ids are shared with kitty images)
+//	sdraw N col row ww wh                   sixel.Draw(Window().New(col,row,ww,wh)): not drawn if larger than the window
 //	kdraw N col row                         img.Draw(Window().New(col,row,-1,-1))
 //	kclear                                  Window().Clear()
 //	krender | krefresh                      Render() / Refresh(); graphics sequences parsed from the console output
@@ -46,6 +48,7 @@ type session struct {
 	kvx  *vaxis.Vaxis // kitty session
 	kfc  *fakeconsole.Console
 	imgs map[int]*vaxis.KittyImage
+	simgs map[int]*vaxis.Sixel
 }
 
 func (s *session) reset() {
@@ -54,6 +57,7 @@ func (s *session) reset() {
 		s.kvx, s.kfc = nil, nil
 	}
 	s.imgs = map[int]*vaxis.KittyImage{}
+	s.simgs = map[int]*vaxis.Sixel{}
 }
 
 func (s *session) closeAll() {
@@ -150,7 +154,7 @@ func (s *session) block(kind string, a []int, hexpix string) (string, bool) {
 	return out.String(), true
 }
 
-var reGfx = regexp.MustCompile(`\x1b\[(\d+);(\d+)H|\x1b_Ga=p,i=(\d+),p=(\d+),C=1\x1b\\|\x1b_Ga=d,d=i,i=(\d+),p=(\d+)\x1b\\|\x1b_Gf=100,i=(\d+),m=(\d+);[^\x1b]*\x1b\\|\x1b_G[^\x1b]*\x1b\\`)
+var reGfx = regexp.MustCompile(`\x1b\[(\d+);(\d+)H|\x1b_Ga=p,i=(\d+),p=(\d+),C=1\x1b\\|\x1b_Ga=d,d=i,i=(\d+),p=(\d+)\x1b\\|\x1b_Gf=100,i=(\d+),m=(\d+);[^\x1b]*\x1b\\|\x1b_G[^\x1b]*\x1b\\|(\x1bP[0-9;]*q)[^\x1b]*\x1b\\`)
 
 // parseGfx extracts, in order, deletions, placements (with a check that the cursor was moved to the
 // placement's cell first) and image uploads from what vaxis wrote.
@@ -185,6 +189,9 @@ func parseGfx(b []byte) string {
 			if m[8] == "0" {
 				lastUp = -1
 			}
+		case m[9] != "":
+			// sixel data is written at the cursor: identified by its cell
+			w = append(w, fmt.Sprintf("S@%d,%d", cupCol-1, cupRow-1))
 		default:
 			w = append(w, "unknown-graphics-sequence:"+hx.Hex(m[0]))
 		}
@@ -337,6 +344,52 @@ func (s *session) execOp(f []string) (string, bool) {
 			}
 			time.Sleep(50 * time.Microsecond)
 		}
+	case "simg":
+		a, ok := ints(f[1:])
+		if !ok || len(a) != 3 || a[1] < 1 || a[2] < 1 {
+			return "", false
+		}
+		img := image.NewNRGBA(image.Rect(0, 0, a[1], a[2]))
+		for i := range img.Pix {
+			img.Pix[i] = uint8(53*i + 17*a[0] + 99)
+			if i%4 == 3 {
+				img.Pix[i] = 255
+			}
+		}
+		s.simgs[a[0]] = s.kvx.NewSixel(img)
+		return "ok", true
+	case "sresize":
+		a, ok := ints(f[1:])
+		if !ok || len(a) != 3 || s.simgs[a[0]] == nil {
+			return "", false
+		}
+		im := s.simgs[a[0]]
+		// NB: Sixel.Resize does all its work in a goroutine; a panic there cannot be recovered here
+		im.Resize(a[1], a[2])
+		deadline := time.Now().Add(10 * time.Second)
+		for {
+			enc, n := im.VerifC20State()
+			if !enc {
+				cw, ch := im.CellSize()
+				if n == 0 {
+					return fmt.Sprintf("%d %d empty", cw, ch), true
+				}
+				return fmt.Sprintf("%d %d", cw, ch), true
+			}
+			if time.Now().After(deadline) {
+				return "hang", true
+			}
+			time.Sleep(50 * time.Microsecond)
+		}
+	case "sdraw":
+		a, ok := ints(f[1:])
+		if !ok || len(a) != 5 || s.simgs[a[0]] == nil {
+			return "", false
+		}
+		if p, _ := hx.Guard(func() { s.simgs[a[0]].Draw(s.kvx.Window().New(a[1], a[2], a[3], a[4])) }); p {
+			return "panic", true
+		}
+		return s.snap(), true
 	case "kdraw":
 		a, ok := ints(f[1:])
 		if !ok || len(a) != 3 || s.imgs[a[0]] == nil {
@@ -372,7 +425,7 @@ var geoms = [][2]int{{1, 2}, {8, 16}, {10, 20}}
 func ceilDiv(x, c int) int { return (x + c - 1) / c }
 
 func runC20(r *hx.Run) error {
-	s := &session{r: r, imgs: map[int]*vaxis.KittyImage{}}
+	s := &session{r: r, imgs: map[int]*vaxis.KittyImage{}, simgs: map[int]*vaxis.Sixel{}}
 	defer s.closeAll()
 	do := func(op string) string {
 		res, ok := s.execOp(strings.Fields(op))
@@ -666,7 +719,7 @@ func genPlacements(r *hx.Run, rng *gen.Rng, do func(string) string) {
 	if r.Thorough {
 		n = 3000
 	}
-	type pl struct{ img, col, row int }
+	type pl struct{ img, col, row, ww, wh int }
 	for c := 0; c < n; c++ {
 		do(fmt.Sprintf("#case kitty:%d", c))
 		cw, ch := gen.Pick(rng, [][2]int{{8, 16}, {10, 20}, {4, 8}})[0], 0
@@ -681,7 +734,8 @@ func genPlacements(r *hx.Run, rng *gen.Rng, do func(string) string) {
 		W, H := 40, 20
 		do(fmt.Sprintf("knew %d %d %d %d", W, H, W*cw, H*ch))
 		nimg := rng.Range(1, 3)
-		imgW, imgH := map[int]int{}, map[int]int{}
+		withSixel := rng.Chance(1, 3)
+		imgW, imgH, sixel := map[int]int{}, map[int]int{}, map[int]bool{}
 		// box for a resize; boxes that squeeze the image to zero pixels are avoided here (the PNG
 		// encoder refuses such an image and no Redraw is posted; see the explicit case below)
 		box := func(i int) (int, int) {
@@ -693,11 +747,37 @@ func genPlacements(r *hx.Run, rng *gen.Rng, do func(string) string) {
 			}
 			return ceilDiv(imgW[i], cw), ceilDiv(imgH[i], ch) // fits unscaled
 		}
+		resize := func(i int) {
+			w, h := box(i)
+			if sixel[i] {
+				do(fmt.Sprintf("sresize %d %d %d", i, w, h))
+				r.Count("sixel-resize")
+			} else {
+				do(fmt.Sprintf("kresize %d %d %d", i, w, h))
+				r.Count("kitty-resize")
+			}
+		}
 		for i := 1; i <= nimg; i++ {
 			imgW[i], imgH[i] = rng.Range(1, 40), rng.Range(1, 40)
-			do(fmt.Sprintf("kimg %d %d %d", i, imgW[i], imgH[i]))
-			w, h := box(i)
-			do(fmt.Sprintf("kresize %d %d %d", i, w, h))
+			sixel[i] = withSixel && rng.Bool()
+			if sixel[i] {
+				do(fmt.Sprintf("simg %d %d %d", i, imgW[i], imgH[i]))
+			} else {
+				do(fmt.Sprintf("kimg %d %d %d", i, imgW[i], imgH[i]))
+			}
+			resize(i)
+		}
+		place := func(i int) pl {
+			p := pl{i, rng.Range(0, W-1), rng.Range(0, H-1), -1, -1}
+			if sixel[i] {
+				// sixel images are only drawn into windows they fit in: mostly large windows, some small
+				p.col, p.row = rng.Range(0, W-6), rng.Range(0, H-4)
+				if rng.Chance(1, 4) {
+					p.ww, p.wh = rng.Range(0, 5), rng.Range(0, 3)
+					r.Count("sixel-small-window")
+				}
+			}
+			return p
 		}
 		var prev []pl
 		frames := rng.Range(3, 8)
@@ -709,9 +789,7 @@ func genPlacements(r *hx.Run, rng *gen.Rng, do func(string) string) {
 				do("kclear")
 			}
 			if f > 0 && rng.Chance(1, 8) {
-				i := rng.Range(1, nimg)
-				w, h := box(i)
-				do(fmt.Sprintf("kresize %d %d %d", i, w, h))
+				resize(rng.Range(1, nimg))
 				r.Count("image-resized-between-frames")
 			}
 			var cur []pl
@@ -721,8 +799,7 @@ func genPlacements(r *hx.Run, rng *gen.Rng, do func(string) string) {
 				case 0:
 					r.Count("placement-dropped")
 				case 1:
-					q := pl{p.img, rng.Range(0, W-1), rng.Range(0, H-1)}
-					cur = append(cur, q)
+					cur = append(cur, place(p.img))
 					r.Count("placement-moved")
 				default:
 					cur = append(cur, p)
@@ -730,7 +807,7 @@ func genPlacements(r *hx.Run, rng *gen.Rng, do func(string) string) {
 				}
 			}
 			for k := rng.Intn(3); k > 0 || (f == 0 && len(cur) == 0); k-- {
-				cur = append(cur, pl{rng.Range(1, nimg), rng.Range(0, W-1), rng.Range(0, H-1)})
+				cur = append(cur, place(rng.Range(1, nimg)))
 				r.Count("placement-added")
 				if k == 0 {
 					break
@@ -741,7 +818,11 @@ func genPlacements(r *hx.Run, rng *gen.Rng, do func(string) string) {
 				r.Count("placement-drawn-twice")
 			}
 			for _, p := range cur {
-				do(fmt.Sprintf("kdraw %d %d %d", p.img, p.col, p.row))
+				if sixel[p.img] {
+					do(fmt.Sprintf("sdraw %d %d %d %d %d", p.img, p.col, p.row, p.ww, p.wh))
+				} else {
+					do(fmt.Sprintf("kdraw %d %d %d", p.img, p.col, p.row))
+				}
 			}
 			if rng.Chance(1, 6) {
 				do("krefresh")
